@@ -88,7 +88,7 @@ def FS.lookup (fs : FS) (p : List Str) : Option Node :=
   | none => if fs.entries.any (fun e => p.isPrefixOf e.1) then some .dir else none
 
 inductive OpenErr
-  | notFound | notDir | isDir | nameTooLong | nul
+  | notFound | notDir | isDir | nameTooLong | nul | loop
   deriving DecidableEq, Repr
 
 def NAME_MAX : Nat := 255
@@ -148,6 +148,19 @@ def new (fs : FS) : List (Str × Str) → Except NewErr Cfg
       match new fs rest with
       | .error e => .error e
       | .ok xs => .ok (x :: xs)
+
+/-- `LocalLoader::add`: `self.caches.push(Self::check(iri, path)?)` -/
+def add (fs : FS) (cfg : Cfg) (nd : Str × Str) : Except NewErr Cfg :=
+  match check fs nd with
+  | .error e => .error e
+  | .ok x => .ok (cfg ++ [x])
+
+/-- the loaders a program can hold: `LocalLoader::default()`, `new(..)`, then any number of `add(..)`
+(the `caches` field is private and nothing else writes it; `Clone`/`arced` keep it) -/
+inductive Reachable (fs : FS) : Cfg → Prop
+  | default : Reachable fs []
+  | new {caches : List (Str × Str)} {cfg : Cfg} : Loader.new fs caches = .ok cfg → Reachable fs cfg
+  | add {cfg cfg' : Cfg} {nd : Str × Str} : Reachable fs cfg → Loader.add fs cfg nd = .ok cfg' → Reachable fs cfg'
 
 /-- the part of the `check` invariant that does not depend on the file system -/
 def CfgOk (cfg : Cfg) : Prop := ∀ nd ∈ cfg, nd.1.getLast? = some '/' ∧ nd.2.head? = some '/'
@@ -280,6 +293,175 @@ def ctxFetch (g : Cfg → FS → Str → Outcome) (cfg : Cfg) (fs : FS) (url : S
   match g cfg fs url with
   | .ok p d ct => if ct = ldJson then some (p, d) else none
   | .err _ => none
+
+/-! ### `Resource` over a loaded graph: every entry point that follows links
+
+`resource/_struct.rs` + `_iter.rs`.  A graph is the list of triples in document order (the harness
+collects into a `Vec`, `triples_matching` scans it in order); `Res` = `Resource {id, base, graph}`, the
+loader being `(cfg, fs)`.  Each entry point is modelled with the list of `get_neighbour` calls it
+PERFORMS (the iterators are lazy: `get_resource` evaluates at most two values, `get_any_resource` one). -/
+
+inductive RTerm
+  | iri (s : Str)
+  | bnode (s : Str)
+  | lit (s : Str)
+  deriving DecidableEq, Repr
+
+abbrev RGraph := List (RTerm × RTerm × RTerm)
+
+structure Res where
+  id : RTerm
+  base : Option Str
+  graph : RGraph
+
+/-- `get_all_terms`: objects of `(id, p, ?)` -/
+def getAllTerms (r : Res) (p : RTerm) : List RTerm :=
+  (r.graph.filter (fun t => t.1 = r.id && t.2.1 = p)).map (·.2.2)
+
+/-- `pred_all_terms`: subjects of `(?, p, id)` -/
+def predAllTerms (r : Res) (p : RTerm) : List RTerm :=
+  (r.graph.filter (fun t => t.2.2 = r.id && t.2.1 = p)).map (·.1)
+
+inductive RErr
+  | noValue | multiple
+  deriving DecidableEq, Repr
+
+/-- `let first = it.next(); if it.next().is_some() { Err(UnexpectedMultipleValueFor) } else
+{ first.ok_or(NoValueFor) }` -/
+def unique {α : Type} : List α → Except RErr α
+  | [] => .error .noValue
+  | [x] => .ok x
+  | _ => .error .multiple
+
+structure Env where
+  isAbs : Str → Bool
+  g : Cfg → FS → Str → Outcome
+  cfg : Cfg
+  fs : FS
+
+/-- `get_neighbour(Ok(t))`: only IRI terms can lead to another document -/
+def neighbour (E : Env) (r : Res) : RTerm → Follow
+  | .iri t => getNeighbour E.isAbs E.g E.cfg E.fs r.base t
+  | _ => .sameDoc
+
+/-- `get_all_resources` / `pred_all_resources`, fully consumed -/
+def getAllResources (E : Env) (r : Res) (p : RTerm) : List Follow := (getAllTerms r p).map (neighbour E r)
+def predAllResources (E : Env) (r : Res) (p : RTerm) : List Follow := (predAllTerms r p).map (neighbour E r)
+
+/-- `get_resource`: (result, follows performed — the second `next()` loads a second value, if any) -/
+def getResource (E : Env) (r : Res) (p : RTerm) : Except RErr Follow × List Follow :=
+  (unique (getAllResources E r p), ((getAllTerms r p).take 2).map (neighbour E r))
+def predResource (E : Env) (r : Res) (p : RTerm) : Except RErr Follow × List Follow :=
+  (unique (predAllResources E r p), ((predAllTerms r p).take 2).map (neighbour E r))
+
+/-- `get_any_resource`: `get_all_resources(p).next()` -/
+def getAnyResource (E : Env) (r : Res) (p : RTerm) : Option Follow × List Follow :=
+  ((getAllResources E r p).head?, ((getAllTerms r p).take 1).map (neighbour E r))
+def predAnyResource (E : Env) (r : Res) (p : RTerm) : Option Follow × List Follow :=
+  ((predAllResources E r p).head?, ((predAllTerms r p).take 1).map (neighbour E r))
+
+def getTerm (r : Res) (p : RTerm) : Except RErr RTerm := unique (getAllTerms r p)
+
+/-- `LadderCursor::next_apply` iterated at most `fuel` times (the Rust iterator is lazy and does not detect
+cycles): the item terms it applies `get_neighbour` to -/
+def ladderTerms (first rest : RTerm) : Nat → Res → List RTerm
+  | 0, _ => []
+  | n + 1, c =>
+    match getTerm c first with
+    | .error _ => []
+    | .ok v =>
+      match getTerm c rest with
+      | .error .noValue => [v]
+      | .error .multiple => []
+      | .ok nx => v :: ladderTerms first rest n { c with id := nx }
+
+def rdfNs : String := "http://www.w3.org/1999/02/22-rdf-syntax-ns#"
+def rdfFirst : RTerm := .iri (rdfNs ++ "first").toList
+def rdfRest : RTerm := .iri (rdfNs ++ "rest").toList
+
+/-- `get_term_items` -/
+def getTermItems (r : Res) (p : RTerm) (fuel : Nat) : List RTerm :=
+  match getTerm r p with
+  | .ok id => ladderTerms rdfFirst rdfRest fuel { r with id := id }
+  | .error _ => []
+
+/-- `get_resource_items` (`LadderResourceIterator`), first `fuel` steps -/
+def getResourceItems (E : Env) (r : Res) (p : RTerm) (fuel : Nat) : List Follow :=
+  (getTermItems r p fuel).map (neighbour E r)
+
+/-- `x` occurs in some position of some triple -/
+def Occurs (g : RGraph) (x : RTerm) : Prop := ∃ t ∈ g, x = t.1 ∨ x = t.2.1 ∨ x = t.2.2
+
+/-! ### symbolic links: the assumption made explicit
+
+The property (and every theorem above) is about the file system WITHOUT symbolic links.  This section
+extends the abstract file system with links so that the assumption can be (a) shown to be exactly what
+separates the two (`walkL_no_links`: without links the extended walk IS the walk above), (b) shown to be
+necessary (`SophiaProofs.C19.symlink_assumption_necessary`) and (c) exercised against the real code (`y`
+requests: the driver predicts what the OS does with the path `get` opens). -/
+
+structure FSL where
+  base : FS
+  /-- location of the link ↦ its target string -/
+  links : List (List Str × Str)
+
+def FSL.linkAt (fs : FSL) (p : List Str) : Option Str := (fs.links.find? (fun e => e.1 = p)).map (·.2)
+
+/-- the kernel's path walk with symbolic links: a link component is replaced by the components of its
+target (an absolute target restarts from the root); `fuel` bounds the number of steps (ELOOP) -/
+def walkL (fs : FSL) : Nat → List Str → List Str → Except OpenErr (List Str × Node)
+  | 0, _, _ => .error .loop
+  | _ + 1, cur, [] => .ok (cur, .dir)
+  | n + 1, cur, c :: rest =>
+    if c = [] ∨ c = dot then walkL fs n cur rest
+    else if c = dotdot then walkL fs n cur.dropLast rest
+    else if utf8Len c > NAME_MAX then .error .nameTooLong
+    else match fs.linkAt (cur ++ [c]) with
+      | some t =>
+        if t.head? = some '/' then walkL fs n [] (splitSlash t ++ rest)
+        else walkL fs n cur (splitSlash t ++ rest)
+      | none =>
+        match fs.base.lookup (cur ++ [c]) with
+        | none => .error .notFound
+        | some .dir => walkL fs n (cur ++ [c]) rest
+        | some (.file d) => if rest = [] then .ok (cur ++ [c], .file d) else .error .notDir
+
+def statL (fs : FSL) (fuel : Nat) (p : Str) : Except OpenErr (List Str × Node) :=
+  if '\x00' ∈ p then .error .nul
+  else if utf8Len p ≥ PATH_MAX then .error .nameTooLong
+  else walkL fs fuel [] (splitSlash p)
+
+def osReadL (fs : FSL) (fuel : Nat) (p : Str) : Except OpenErr Str :=
+  match statL fs fuel p with
+  | .ok (_, .file d) => .ok d
+  | .ok (_, .dir) => .error .isDir
+  | .error e => .error e
+
+/-- `getStep` with the `read` of the file system as a parameter (`getStepR_osRead`: instantiated with
+`osRead fs` it is `getStep`, by `rfl`) -/
+def getStepR (P : Params) (rd : Str → Except OpenErr Str) (recur : Str → Outcome) (cfg : Cfg) (iri0 : Str) : Outcome :=
+  let iri := stripFragment iri0
+  match findNs cfg iri with
+  | none => .err .unsupported
+  | some (ns, dir) =>
+    let rem := iri.drop ns.length
+    if P.guard && !safeRem rem then .err .unsupported
+    else
+      let p := joinPath dir rem
+      match rd p with
+      | .ok data => .ok p data (ctype P.feats iri)
+      | .error .notFound =>
+        if noExt iri then
+          match firstOk (activeExts P.feats) (fun ext => recur (iri ++ '.' :: ext)) with
+          | some r => r
+          | none => .err .notFound
+        else .err .notFound
+      | .error e => .err (.io e)
+
+/-- the code in /repo over a file system with symbolic links -/
+def getCurL (f : Features) (cfg : Cfg) (fs : FSL) (fuel : Nat) (iri : Str) : Outcome :=
+  let P : Params := ⟨Gen.LoaderExts.guardPresent, f⟩
+  getStepR P (osReadL fs fuel) (getStepR P (osReadL fs fuel) (fun _ => .err .notFound) cfg) cfg iri
 
 /-! ### confinement -/
 
